@@ -44,6 +44,9 @@ func WireTypeOf(k Kind, opt string) protowire.Type {
 	return protowire.BytesType
 }
 
+// FieldByNum returns the field of m with number n, or nil.
+func (m *Message) FieldByNum(n int) *Field { return m.byNum(n) }
+
 func (m *Message) byNum(n int) *Field {
 	for i := range m.Fields {
 		if m.Fields[i].Num == n {
@@ -127,7 +130,7 @@ func (s *Schema) ParseWire(m *Message, b []byte) ([]WNode, error) {
 		default:
 			return nil, fmt.Errorf("field %d: wire type %d not handled (groups are never generated)", num, typ)
 		}
-		if f != nil && (f.K == KMsg || f.K == KMap || WireTypeOf(f.K, f.Opt) == typ) {
+		if f != nil && WireTypeOf(f.K, f.Opt) == typ {
 			nd.F = f
 		}
 		out = append(out, nd)
